@@ -26,7 +26,8 @@ RULE = ("strings (as raw-string contents and as member names) and JSON values (a
         "and compares with the value; malformed quoted forms must be rejected. Non-trivial = distinct value containing a delimiter or backslash.")
 
 ALPH = ["\\", "\\", "'", "`", '"', "a", "b", " ", "é", "😀", "\n", "\t", "\x01", "u", "0", "[", "{", ":", ",",
-        "\r", "\r\n", "\n\r", "\x00", "\x7f", "\u0301", "\u200b", "\ufeff", "\x0c", "\u2028", "\U0010ffff", "n", "\\n"]
+        "\r", "\r\n", "\n\r", "\x00", "\x7f", "\u0301", "\u200b", "\ufeff", "\x0c", "\u2028", "\U0010ffff", "n", "\\n",
+        "\u2018", "\u2019", "\u201c", "\u201d", "\u00b4", "\uff07", "\uff02", "\u02bc", "users", "\\u", "\\users", "x" * 40]
 
 
 def raw_spellable(s):
